@@ -365,15 +365,19 @@ class ProgGen:
             return self.call_expr("str", d)
         return self.str_lit()
 
-    def fstring(self, d):
+    def fstring(self, d, floats=False):
+        """f-string expression. Float fields (rendered with 2 decimals on the device) are generated only when the
+        result is printed directly (`floats=True`) and are always followed by non-digit literal text, so that the
+        printed line stays tokenisable for the numeric-tolerance comparison."""
         self.feat("fstring")
         r = self.r
         parts = []
-        for fi in range(r.randint(1, 3)):
+        n = r.randint(1, 3)
+        for fi in range(n):
             if fi > 0 or self.chance(0.6):
-                # fields are always separated by literal text (keeps printed numbers tokenisable)
                 parts.append(r.choice(["n=", "v ", "x:", " / ", "t", "[", "]"]))
-            kind = r.choice(["int", "int", "float", "str"] + (["bool"] * 2 if self.h("bool-text") else []))
+            kinds = ["int", "int", "str"] + (["float", "float"] if floats else []) + (["bool"] * 2 if self.h("bool-text") else [])
+            kind = r.choice(kinds)
             if kind == "str" and not self.visible("str"):
                 kind = "int"
             if kind == "str":
@@ -386,6 +390,10 @@ class ProgGen:
                 if '"' in e:
                     e = self.int_lit()
                 parts.append("{" + e + "}")
+                if kind == "float":
+                    self.feat("fstring-float")
+                    if fi == n - 1:
+                        parts.append(r.choice([";", " ms", "|"]))
         return 'f"' + "".join(parts) + '"'
 
     def call_expr(self, ret, d):
@@ -524,8 +532,12 @@ class ProgGen:
         self.s_observe(depth)
 
     def s_write_expr(self, depth):
-        t = self.r.choice(["int", "int", "float", "str"])
+        t = self.r.choice(["int", "int", "float", "str", "fstr"])
         self.obs += 1
+        if t == "fstr":
+            self.emit(f"mon.write({self.fstring(1, floats=True)})")
+            self.feat("write-expr")
+            return
         self.emit(f"mon.write({self.expr(t, 1)})")
         self.feat("write-expr")
 
